@@ -582,9 +582,12 @@ func (h *harness) checkCompare(a, b cpe.WFN) {
 			h.r.Count("cmp:target-wildcard")
 			continue // undefined by the specification
 		}
-		if (s.Kind == cpe.ValueSet && stripQuotedAlnum(s.V) != s.V) || (t.Kind == cpe.ValueSet && stripQuotedAlnum(t.V) != t.V) {
+		if !sWild && ((s.Kind == cpe.ValueSet && stripQuotedAlnum(s.V) != s.V) || (t.Kind == cpe.ValueSet && stripQuotedAlnum(t.V) != t.V)) {
+			// a quoting the naming specification does not provide for (finding
+			// fs-quoted-nonpunctuation): whether `\a` equals `a` is left open for
+			// the plain comparison; the pattern matcher compares unquoted
 			h.r.Count("cmp:skipped-quoted-alphanumeric")
-			continue // a quoting the naming specification does not provide for (finding fs-quoted-nonpunctuation)
+			continue
 		}
 		var want cpe.Relation
 		switch {
@@ -622,16 +625,7 @@ func (h *harness) checkCompare(a, b cpe.WFN) {
 		if ab[i] == want {
 			continue
 		}
-		class := ""
-		if sWild && (strings.Contains(s.V, "\\") || strings.Contains(t.V, "\\")) {
-			switch {
-			case ab[i] == cpe.Disjoint && want == cpe.Superset:
-				class = patQuoted
-			case ab[i] == cpe.Superset && want == cpe.Disjoint && endsWithQuotedSpecial(s.V):
-				class = patQuotedTrail
-			}
-		}
-		h.r.Fail(class, fmt.Sprintf("attribute %d: Compare gives %s, the matching specification %s; %s", i, relLetter(ab[i]), relLetter(want), desc()))
+		h.r.Fail("", fmt.Sprintf("attribute %d: Compare gives %s, the matching specification %s; %s", i, relLetter(ab[i]), relLetter(want), desc()))
 	}
 	// identical names are equal
 	if wildFree(a) {
@@ -667,19 +661,6 @@ func (h *harness) checkCompare(a, b cpe.WFN) {
 	if ab.IsDisjoint() && (ab.IsSuperset() || ab.IsSubset() || ab.IsEqual()) {
 		h.r.Fail("", "disjoint and also superset/subset/equal: "+desc())
 	}
-}
-
-func endsWithQuotedSpecial(s string) bool {
-	last := ""
-	for i := 0; i < len(s); i++ {
-		if s[i] == '\\' && i+1 < len(s) {
-			last = s[i : i+2]
-			i++
-		} else {
-			last = s[i : i+1]
-		}
-	}
-	return last == "\\*" || last == "\\?"
 }
 
 // stripQuotedAlnum removes the backslash before letters, digits and the
@@ -822,15 +803,6 @@ func (h *harness) replayKnown() {
 		if got, err := cpe.Unbind(w.BindFS()); err == nil && got != norm(w) && got.Attr[1].Kind == cpe.ValueUnset {
 			h.r.KnownSeen(rtEmpty, fmt.Sprintf("vendor Value{Kind: ValueSet, V: \"\"} is Valid, binds to %q and unbinds to an unset vendor", w.BindFS()))
 		}
-	}
-	// quoted characters of the target count as two for '?'
-	a, b := mkName(map[int]string{3: "1?"}), mkName(map[int]string{3: "1\\."})
-	if r := cpe.Compare(a, b); r[3] == cpe.Disjoint && specMatches("1?", "1\\.") {
-		h.r.KnownSeen(patQuoted, `version "1?" against version "1\." is Disjoint; '?' stands for the one character '.'`)
-	}
-	a, b = mkName(map[int]string{3: "*a\\*"}), mkName(map[int]string{3: "a\\.b"})
-	if r := cpe.Compare(a, b); r[3] == cpe.Superset && !specMatches("*a\\*", "a\\.b") {
-		h.r.KnownSeen(patQuotedTrail, `version "*a\*" against version "a\.b" is Superset; the pattern ends in a quoted asterisk, the target does not`)
 	}
 	for _, k := range []struct{ id, s string }{
 		{lenFewer, "cpe:2.3:a:b"},
